@@ -23,14 +23,25 @@
 #include <sys/time.h>
 #include <unistd.h>
 #include <errno.h>
+#include <setjmp.h>
 
 static volatile sig_atomic_t ticks = 0;
 static volatile sig_atomic_t want_suspend = 0;
 static int tick_limit = 4000;  /* 4000 * 5 ms = 20 s per input: a hang */
 
+/* PEG matching has no interrupt point and valid PEG bytecode can take exponential time (or capture without bound): a single
+ * peg call gets a time budget and is abandoned with siglongjmp when it is used up - that is not a finding */
+static sigjmp_buf peg_jmp;
+static volatile sig_atomic_t peg_armed = 0, peg_ticks = 0;
+static long n_peg_timeouts = 0;
+
 static void on_tick(int sig) {
     (void) sig;
     ticks++;
+    if (peg_armed && ++peg_ticks > 30) {
+        peg_armed = 0;
+        siglongjmp(peg_jmp, 1);
+    }
     if (want_suspend) janet_vm.auto_suspend = 1;
     if (ticks > tick_limit) {
         static const char msg[] = "\nHANG: input exceeded the time limit\n";
@@ -69,11 +80,24 @@ static int denied(const char *s) {
 }
 
 static JanetCFunction asm_cfun = NULL;
+static JanetCFunction peg_match_cfun = NULL, peg_findall_cfun = NULL, peg_replace_cfun = NULL;
+static long n_pegs = 0;
 static void build_registry(void) {
     JanetTable *env = janet_core_env(NULL);
     Janet asmv = janet_wrap_nil();
     janet_resolve(env, janet_csymbol("asm"), &asmv);
     if (janet_checktype(asmv, JANET_CFUNCTION)) asm_cfun = janet_unwrap_cfunction(asmv);
+    {
+        Janet v = janet_wrap_nil();
+        janet_resolve(env, janet_csymbol("peg/match"), &v);
+        if (janet_checktype(v, JANET_CFUNCTION)) peg_match_cfun = janet_unwrap_cfunction(v);
+        v = janet_wrap_nil();
+        janet_resolve(env, janet_csymbol("peg/find-all"), &v);
+        if (janet_checktype(v, JANET_CFUNCTION)) peg_findall_cfun = janet_unwrap_cfunction(v);
+        v = janet_wrap_nil();
+        janet_resolve(env, janet_csymbol("peg/replace-all"), &v);
+        if (janet_checktype(v, JANET_CFUNCTION)) peg_replace_cfun = janet_unwrap_cfunction(v);
+    }
     Janet lidv = janet_wrap_nil();
     janet_resolve(env, janet_csymbol("load-image-dict"), &lidv);
     reg = janet_table(512);
@@ -246,6 +270,40 @@ static void exercise_fiber(JanetFiber *fiber, int variant, int depth) {
     janet_gcunroot(janet_wrap_fiber(fiber));
 }
 
+/* an accepted PEG is run: (peg/match peg text), (peg/find-all peg text), (peg/replace-all peg "r" text) on several texts */
+static int is_peg(Janet x) {
+    return janet_checktype(x, JANET_ABSTRACT) && !strcmp(janet_abstract_type(janet_unwrap_abstract(x))->name, "core/peg");
+}
+static void exercise_peg(Janet peg) {
+    static const char *texts[] = {"", "a", "aaa", "a1b22c333 xyz", "q 12 34 -1", "zzzzzzzzzzzzzzzzzzzzzzzzzzzzzzzz", "\x01\x02\x03\x04\xff\xfe\x80\x7f", "hello world 0123456789", NULL};
+    n_pegs++;
+    for (int i = 0; texts[i]; i++) {
+        Janet argv[4];
+        Janet a2[3];
+        argv[0] = peg; argv[1] = janet_cstringv(texts[i]); argv[2] = janet_wrap_integer(0); argv[3] = janet_ckeywordv("arg");
+        a2[0] = peg; a2[1] = janet_cstringv("r"); a2[2] = argv[1];
+        for (int which = 0; which < 3; which++) {
+            if (which > 0 && i >= 5) break;
+            /* snapshot of what janet_try changes, restored by hand when the call is abandoned */
+            JanetTryState snap;
+            snap.stackn = janet_vm.stackn; snap.gc_handle = janet_vm.gc_suspend; snap.vm_fiber = janet_vm.fiber;
+            snap.vm_jmp_buf = janet_vm.signal_buf; snap.vm_return_reg = janet_vm.return_reg; snap.coerce_error = janet_vm.coerce_error;
+            if (sigsetjmp(peg_jmp, 1) == 0) {
+                peg_ticks = 0; peg_armed = 1;
+                if (which == 0 && peg_match_cfun) GUARDED({ Janet r = peg_match_cfun(4, argv); mix((uint32_t) janet_type(r)); });
+                if (which == 1 && peg_findall_cfun) GUARDED({ Janet r = peg_findall_cfun(2, argv); mix((uint32_t) janet_type(r)); });
+                if (which == 2 && peg_replace_cfun) GUARDED({ Janet r = peg_replace_cfun(3, a2); mix((uint32_t) janet_type(r)); });
+                peg_armed = 0;
+            } else {
+                janet_restore(&snap);
+                n_peg_timeouts++;
+                ticks = 0;
+                return;   /* this program is slow: one abandoned call is enough */
+            }
+        }
+    }
+}
+
 /* walk a decoded value, exercising every function / fiber reachable through data containers (bounded) */
 static int walk_budget;
 static void exercise_value(Janet x, int variant, int depth) {
@@ -344,6 +402,7 @@ static void do_unmarshal(const uint8_t *bytes, size_t len, int exercise) {
     collect_now();
     light_ops(x);
     int code = has_code(x, 0);
+    if (is_peg(x)) { exercise_peg(x); collect_now(); }
     janet_gcunroot(x);
     if (code) {
         int nvar = 6;
@@ -519,6 +578,7 @@ int main(int argc, char **argv) {
         free(bytes);
     }
     free(line);
+    fprintf(stderr, "pegs=%ld peg_timeouts=%ld ", n_pegs, n_peg_timeouts);
     fprintf(stderr, "stats inputs=%ld accepted=%ld calls=%ld resumes=%ld interrupts=%ld\n", n_inputs, n_acc, n_calls, n_resumes, n_interrupts);
     janet_deinit();
     return 0;
